@@ -216,6 +216,13 @@ def judge_length(S, ctx, seg, e, what, got=None):
     return L, ref
 
 
+def _attributed(S, ctx, image, e, what):
+    """an invariance mismatch whose cause is that the IMAGE's own length misses its own true length: judged (and keyed) as that"""
+    before = len(ctx.case_violations)
+    judge_length(S, ctx, image, e, what)
+    return len(ctx.case_violations) > before
+
+
 def _inv_tol(S, seg, ref, e, S_, other=None):
     base = max(2 * e, 1e-9 * ref) + 1e-11 * S_
     if _uses_subdivision(S, seg) or (other is not None and _uses_subdivision(S, other)):
@@ -251,6 +258,8 @@ def _run_segment(S, case, ctx):
     L2 = s2.length(error=e)
     S2 = max([S_] + [abs(v) for p in s2 if p is not None for v in (p.x, p.y)])
     if ctx.see("isometry", abs(L2 - L) / _inv_tol(S, seg, ref, e, S2, s2)) > 1:
+        if _attributed(S, ctx, s2, e, "%s mapped by Matrix%s" % (what, (M,))):
+            return
         ctx.violation("not-isometry-invariant/%s" % kind, "%s: length %r, after the isometry Matrix%s %r" % (what, L, M, L2), monitor="isometry-invariance")
         return
     ctx.mon("reversal-invariance")
@@ -258,6 +267,8 @@ def _run_segment(S, case, ctx):
     s3.reverse()
     L3 = s3.length(error=e)
     if ctx.see("reversal", abs(L3 - L) / _inv_tol(S, seg, ref, e, S_)) > 1:
+        if _attributed(S, ctx, s3, e, "%s reversed" % what):
+            return
         ctx.violation("not-reversal-invariant/%s" % kind, "%s: length %r, reversed %r" % (what, L, L3), monitor="reversal-invariance")
         return
     ctx.mon("uniform-scaling")
@@ -268,6 +279,8 @@ def _run_segment(S, case, ctx):
     if _uses_subdivision(S, seg) or _uses_subdivision(S, s4):
         tol += envelope(ref * abs(sc), e) + abs(sc) * envelope(ref, e)
     if ctx.see("scaling", abs(L4 - abs(sc) * L) / tol) > 1:
+        if _attributed(S, ctx, s4, e, "%s scaled by %r" % (what, sc)):
+            return
         ctx.violation("length-does-not-scale/%s" % kind, "%s: length %r, scaled by %r: %r (expected %r)" % (what, L, sc, L4, abs(sc) * L), monitor="uniform-scaling")
 
 
